@@ -268,6 +268,15 @@ def main(argv):
     cfg = PROPS.PROPS[prop]
     t0 = time.time()
     work = os.path.join(BUILD, 'run', '%s-%s-%d-%d' % (prop, tier, seed, os.getpid()))
+    # scratch directories of earlier runs of this property whose process is gone (kept after a violation for
+    # inspection; the replay file under replays/ is what matters): remove them, disk space is limited
+    try:
+        for d in os.listdir(os.path.join(BUILD, 'run')):
+            m = re.match(r'^%s-(quick|thorough)-\d+-(\d+)$' % prop, d)
+            if m and not os.path.exists('/proc/%s' % m.group(2)):
+                shutil.rmtree(os.path.join(BUILD, 'run', d), ignore_errors=True)
+    except OSError:
+        pass
     os.makedirs(work, exist_ok=True)
     os.makedirs(os.path.join(ROOT, 'evidence'), exist_ok=True)
     os.makedirs(os.path.join(ROOT, 'replays'), exist_ok=True)
